@@ -111,6 +111,12 @@ struct VT
     for (int i = 0; i < N; ++i) v[i] = toScalar<T>(a[(size_t)i].num());
     return v;
   }
+  static V makeQ(const Json &a, long long den)  // rational components num / den (den > 1: floating-point element types only)
+  {
+    V v;
+    for (int i = 0; i < N; ++i) v[i] = den == 1 ? toScalar<T>(a[(size_t)i].num()) : (T)((double)a[(size_t)i].num() / (double)den);
+    return v;
+  }
   static Json out(const V &v)
   {
     Json a = Json::array();
@@ -124,6 +130,10 @@ struct VT<T, 1, false>
 {
   typedef T V;
   static V make(const Json &a) { return toScalar<T>(a[(size_t)0].num()); }
+  static V makeQ(const Json &a, long long den)
+  {
+    return den == 1 ? toScalar<T>(a[(size_t)0].num()) : (T)((double)a[(size_t)0].num() / (double)den);
+  }
   static Json out(const V &v)
   {
     Json a = Json::array();
@@ -142,11 +152,31 @@ static bool inputInverted(const Json &lo, const Json &hi)
 }
 
 // ---- operations that exist only for some dimensions ----------------------------
+// images of two boxes (and of their intersection) under scaling / translation, through one operand order
+template <typename B, typename V>
+static Json imagesOfPair(const B &a, const B &b, const V &v, bool scale, bool boxFirst)
+{
+  const B ia = scale ? (boxFirst ? a * v : v * a) : (boxFirst ? a + v : v + a);
+  const B ib = scale ? (boxFirst ? b * v : v * b) : (boxFirst ? b + v : v + b);
+  const B in = intersectionOf(a, b);
+  const B iin = scale ? (boxFirst ? in * v : v * in) : (boxFirst ? in + v : v + in);
+  Json o = Json::object();
+  o.set("inter_of_images_empty", intersectionOf(ia, ib).empty());
+  o.set("image_of_inter_empty", iin.empty());
+  o.set("disjoint_images", disjoint(ia, ib));
+  return o;
+}
+
 template <typename T, int N, bool A>
 struct Extra
 {
   typedef range_t<typename VT<T, N, A>::V> B;
   static void unary(const B &, Json &) {}
+  static void imagesPair(const B &a, const B &b, const typename B::bound_t &v, bool scale, Json &o)
+  {
+    o.set("r", imagesOfPair(a, b, v, scale, true));
+    o.set("l", imagesOfPair(a, b, v, scale, false));
+  }
   static void centerFree(const B &b, Json &o) { o.set("center2_free", VT<T, N, A>::out(VT<T, N, A>::twice(center(b)))); }
   static void pair(const B &a, const B &b, Json &o, bool all)
   {
@@ -169,6 +199,7 @@ struct Extra<T, 1, false>
   typedef range_t<T> B;
   static void unary(const B &, Json &) {}
   static void centerFree(const B &, Json &) {}  // the free function center() exists for vector boxes only
+  static void imagesPair(const B &, const B &, const T &, bool, Json &) {}  // no intersectionOf / disjoint in dimension 1
   static void pair(const B &, const B &, Json &, bool) {}
   static Json boxResult(const B &r)
   {
@@ -185,6 +216,12 @@ struct Extra<T, 2, false>
   typedef range_t<vec_t<T, 2>> B;
   static void unary(const B &b, Json &o) { o.set("area", fromScalar<T>(area(b))); }
   static void centerFree(const B &b, Json &o) { o.set("center2_free", VT<T, 2, false>::out(VT<T, 2, false>::twice(center(b)))); }
+  static void imagesPair(const B &a, const B &b, const typename B::bound_t &v, bool scale, Json &o)
+  {
+    o.set("r", imagesOfPair(a, b, v, scale, true));
+    o.set("l", imagesOfPair(a, b, v, scale, false));
+  }
+
   static void pair(const B &a, const B &b, Json &o, bool all)
   {
     B r = intersectionOf(a, b);
@@ -213,6 +250,12 @@ struct Extra<T, 3, A>
     o.set("volume", fromScalar<T>(volume(b)));
   }
   static void centerFree(const B &b, Json &o) { o.set("center2_free", VT<T, 3, A>::out(VT<T, 3, A>::twice(center(b)))); }
+  static void imagesPair(const B &a, const B &b, const typename B::bound_t &v, bool scale, Json &o)
+  {
+    o.set("r", imagesOfPair(a, b, v, scale, true));
+    o.set("l", imagesOfPair(a, b, v, scale, false));
+  }
+
   static void pair(const B &a, const B &b, Json &o, bool all)
   {
     B r = intersectionOf(a, b);
@@ -326,6 +369,33 @@ struct Ops : IBox
         o.set("r", boxOut(b + v));
         o.set("l", boxOut(v + b));
       }
+    } else if (a == "ScaleEmpty" || a == "TranslateEmpty") {
+      // boxes WITHOUT points: the result through both operand orders, what it contains, and (default empty box) extend
+      const B b = makeBox(arg["lo"], arg["hi"]);
+      const V v = W::makeQ(arg["v"], arg["den"].num());
+      const bool def = isDefaultEmpty(arg["lo"]);
+      const Json &pts = arg["pts"];
+      for (int side = 0; side < 2; ++side) {
+        const B r = a == "ScaleEmpty" ? (side == 0 ? b * v : v * b) : (side == 0 ? b + v : v + b);
+        Json j = X::boxResult(r);
+        Json cont = Json::array(), ext = Json::array();
+        for (size_t k = 0; k < pts.size(); ++k) {
+          const V p = W::make(pts[k]);
+          cont.push(r.contains(p));
+          if (def) {
+            B e = r;
+            e.extend(p);
+            ext.push(boxOut(e));
+          }
+        }
+        j.set("contains", cont);
+        if (def) j.set("extend", ext);
+        o.set(side == 0 ? "r" : "l", j);
+      }
+    } else if (a == "ScalePair" || a == "TranslatePair") {
+      const B x = makeBox(arg["a"]["lo"], arg["a"]["hi"]);
+      const B y = makeBox(arg["b"]["lo"], arg["b"]["hi"]);
+      X::imagesPair(x, y, W::makeQ(arg["v"], arg["den"].num()), a == "ScalePair", o);
       // ------------------------------------------------- recorded executions
     } else if (a == "New" || a == "Clear") {
       cur = B();
